@@ -17,6 +17,21 @@ Correspondence (implementation vs Lean model through the driver):
     own public transformations; the model runs the ladder's control flow (`Fc.C03.ladder`) over that chain,
     evaluating `Fc.C16.equals` (Mesh = min of both tolerances, PermutedMesh = receiver's) and the field
     comparisons on every visited rung; observable = (bool(domain_equality_check), bool(suite)).
+
+File-level batch (phase 5, `file_batch`): hand-written ascii `.vtu` files (fcv.vtufile_p5b) whose cell types are
+INTERLEAVED in file order (triangle, quad, triangle, ...; as VTK / ParaView / DUNE write them, unlike the type-grouped
+files of fieldcompare.io.write / meshio), carrying point and cell data.  source = reference except ONE changed entry
+of the file (every cell-field row, every point-field row, every coordinate, one corner per cell, the type entry of
+4-corner cells), with and without renumbering of the points / cells of the changed file, both roles; compared by the
+CLI (`fieldcompare file`) and by `MeshFieldsComparator` on `fieldcompare.io.read` of both files.
+  * search: a real change (geometric key of the data the FILE states differs) must give CLI exit code != 0 and
+    bool(suite) False (the property; the changes are >= 25 % / 0.28 lattice spacings, far beyond every tolerance);
+  * correspondence: the arrays stated by the generated text are parsed by the harness' own reference parser, grouped
+    per cell type by the Lean VTU layout model (`Fc.vtuLayout` / `Fc.splitCellData`, driver op c05vtu; cross-checked
+    with an independent Python grouping), turned into API objects, and the Lean ladder model evaluated on them gives
+    the expected (domain check, suite) of the API comparison of the READ data and the expected CLI verdict
+    (exit code 0 iff suite; CLI and API use different default tolerances - the relation is claimed only because
+    every change is either absent or far beyond both).  Unchanged (renumbered) copies are expected to pass this way.
 """
 from __future__ import annotations
 import copy
@@ -26,6 +41,7 @@ import warnings
 import numpy as np
 
 from fcv import meshgen, c16io, core
+from fcv import vtufile_p5b as vf
 from fcv.num import f2u
 
 REL = 1e-8
@@ -337,6 +353,157 @@ def flush(ctx, rows):
                              what="MeshFieldsComparator (domain check, suite): impl vs model ladder")
 
 
+# ---------------------------------------------------------------- file-level batch: interleaved cell types in .vtu files
+
+def _file_state(ctx, texts):
+    """{text: (arrays stated by the file, logical mesh, how)}: grouping per cell type by the Lean VTU layout model;
+    by the Python grouping if the driver is not available.  The two groupings must agree (else `inconsistent`)."""
+    uniq = list(dict.fromkeys(texts))
+    arrs = [vf.parse_vtu(t) for t in uniq]
+    reps = ctx.lean([vf.layout_line(a) for a in arrs]) if ctx.driver_ok else [None] * len(uniq)
+    out = {}
+    for t, a, rep in zip(uniq, arrs, reps):
+        py = vf.group_py(a)
+        lm, how = py, "python-grouping"
+        if rep is not None:
+            lm = vf.lm_from_layout(a, rep)
+            how = "lean-vtuLayout"
+            if lm is None or lm != py:
+                ctx.inconsistent({"vtu_text": t}, str(rep)[:2000], "python grouping of the stated arrays")
+                lm, how = py, "python-grouping"
+        out[t] = (a, lm, how)
+    return out
+
+
+def run_files(src_text, ref_text, tmpdir):
+    """-> (api (domain,suite) code on the READ data, CLI outcome)"""
+    import os
+    from fcv import cli
+    sp, rp = os.path.join(tmpdir, "source.vtu"), os.path.join(tmpdir, "reference.vtu")
+    with open(sp, "w") as fh:
+        fh.write(src_text)
+    with open(rp, "w") as fh:
+        fh.write(ref_text)
+    try:
+        from fieldcompare.io import read
+        with warnings.catch_warnings():
+            warnings.simplefilter("ignore")
+            api = run_comparator(read(sp), read(rp), [False, False, False])
+    except Exception as e:  # noqa: BLE001
+        api = f"X:read:{type(e).__name__}"
+    code, _ = cli.run_cli(["file", sp, rp])
+    return api, code
+
+
+def file_cases(rng, thorough):
+    """enumerated: base mesh x every site x renumbering variant x role (full cross for the cell-field rows, cycling
+    for the other site classes) + unchanged copies in every variant and both roles"""
+    cases = []
+    for label, fm in vf.base_meshes(rng, thorough):
+        il = "interleaved" if vf.interleaved(fm) else "grouped"
+        k = 0
+        for variant in vf.VARIANTS:
+            for role in ("mutated-as-source", "mutated-as-reference"):
+                cases.append({"base": label, "tag": "file-unchanged", "variant": variant, "role": role, "orig": fm,
+                              "other": vf.renumbered(rng, fm, variant), "tags": [il]})
+        for site in vf.sites(rng, fm):
+            mut, tag = vf.apply_site(fm, site)
+            full = site[0] == "cfield"
+            variants = vf.VARIANTS if full else [vf.VARIANTS[k % 4]]
+            for vi, variant in enumerate(variants):
+                roles = ["mutated-as-source", "mutated-as-reference"]
+                roles = roles if thorough else [roles[(k + vi) % 2]]
+                for role in roles:
+                    cases.append({"base": label, "tag": "file-" + tag, "variant": variant, "role": role, "orig": fm,
+                                  "other": vf.renumbered(rng, mut, variant), "tags": [il], "site": list(site)})
+            k += 1
+    return cases
+
+
+def check_file_cases(ctx, cases):
+    import tempfile
+    for c in cases:
+        c["other_text"], c["orig_text"] = vf.vtu_text(c["other"]), vf.vtu_text(c["orig"])
+    state = _file_state(ctx, [c["orig_text"] for c in cases] + [c["other_text"] for c in cases])
+    rows = []
+    with tempfile.TemporaryDirectory(prefix="fcv_c03_files_") as tmp:
+        for c in cases:
+            mutated_is_src = c["role"] == "mutated-as-source"
+            st, rt = (c["other_text"], c["orig_text"]) if mutated_is_src else (c["orig_text"], c["other_text"])
+            lm_s, lm_r = state[st][1], state[rt][1]
+            small = {"kind": "vtu-files", "fm_src": c["other"] if mutated_is_src else c["orig"],
+                     "fm_ref": c["orig"] if mutated_is_src else c["other"], "tag": c["tag"], "role": c["role"],
+                     "variant": c["variant"], "base": c["base"], "flags": [False, False, False]}
+            changed = geom_key(lm_s) != geom_key(lm_r)
+            if c["tag"] == "file-unchanged":
+                expect = False if not changed else None
+            else:
+                expect = True if (changed and separated(lm_s) and separated(lm_r)) else None
+            api, code = run_files(st, rt, tmp)
+            tags = list(c["tags"]) + ["file-level", "site-" + c["tag"], c["variant"], c["role"], f"api-{api}", f"cli-{code}",
+                                      "grouping-" + state[st][2]]
+            if expect is True:
+                tags.append("assert-fail")
+                bad = []
+                if not api.startswith("X:") and api[-1] == "1":
+                    bad.append("MeshFieldsComparator on the read data")
+                if code == 0:
+                    bad.append("CLI `fieldcompare file` (exit code 0)")
+                if bad:
+                    ctx.violation(small, f"PASS by {' and '.join(bad)} (api={api}, cli={code})", "FAIL", cls=None,
+                                  what=f"single-site modification '{c['tag']}' of a .vtu file with {c['tags'][0]} cell types "
+                                       f"({c['variant']}) beyond tolerance but the comparison passes")
+            elif expect is None:
+                tags.append("not-asserted")
+            if api.startswith("X:") or not isinstance(code, int):
+                ctx.violation(small, f"api={api}, cli={code}", "a verdict", cls=None,
+                              what="reading / comparing a well-formed ascii .vtu file raised")
+            ctx.case((st, rt), nontrivial=c["tag"] != "file-unchanged", tags=tags,
+                     sample={"tag": c["tag"], "variant": c["variant"], "role": c["role"], "base": c["base"], "api": api,
+                             "cli": code, "expect_fail": expect, "file_cell_types": [t for t, _ in small["fm_src"]["cells"]]})
+            if ctx.driver_ok and not api.startswith("X:") and c.get("ladder", True):
+                src, ref = meshgen.to_fc(lm_s), meshgen.to_fc(lm_r)
+                chain = build_chain(src, ref, [False, False, False])
+                rows.append((small, api, code, expect, ladder_line(chain, [False, False, False])))
+    if not rows:
+        return
+    reps = ctx.lean([r[4] for r in rows])
+    for (small, api, code, expect, _), rep in zip(rows, reps):
+        if "hyp" not in rep:
+            ctx.inconsistent(small, str(rep), "bad-op")
+            continue
+        ctx.dist[f"file-ladder-hyp-{rep['hyp']}"] += 1
+        if rep["hyp"] != "1" or rep.get("err") == "1":
+            continue
+        model = rep["model"]
+        if expect is not None and (model[-1] == "1") != (not expect):
+            ctx.inconsistent(small, model, "FAIL" if expect else "PASS")      # model on the stated data vs the property
+        if model != api:
+            ctx.mismatch(small, api, model + " rung=" + rep.get("rung", "?"),
+                         what="MeshFieldsComparator on fieldcompare.io.read of the .vtu files vs the model ladder on the data "
+                              "the files state (own parser + Lean VTU layout)")
+        if isinstance(code, int) and (code == 0) != (model[-1] == "1"):
+            ctx.mismatch(small, f"cli-exit-{code}", model,
+                         what="CLI `fieldcompare file` verdict vs the model ladder on the data the files state")
+
+
+def file_batch(ctx):
+    cases = file_cases(ctx.rng, ctx.tier == "thorough")
+    # the model ladder (large driver lines) on the unchanged copies and on every 3rd (thorough: 2nd) changed pair; the
+    # property (a real change must fail) is asserted on every pair
+    step = 2 if ctx.tier == "thorough" else 3
+    for i, c in enumerate(cases):
+        c["ladder"] = c["tag"] == "file-unchanged" or i % step == 0
+    CHF = 400
+    for i in range(0, len(cases), CHF):
+        check_file_cases(ctx, cases[i:i + CHF])
+    ctx.extra["file_level_cases"] = len(cases)
+    ctx.notes.append("file-level batch: ascii .vtu files with interleaved cell types (plus one type-grouped control), every "
+                     "single entry of the file changed once, x renumbering of points / cells of the changed file, via CLI and "
+                     "MeshFieldsComparator(read(..), read(..)); expected verdicts from the property and from the Lean ladder "
+                     "model evaluated on the data the file states (harness parser + Lean VTU layout model)")
+
+
 def gen_cases(rng, i, ladder=True):
     """cases derived from one base mesh"""
     site = SITES[i % len(SITES)]
@@ -378,8 +545,10 @@ def run(ctx):
                 "line/triangle/quad/pixel/polygon/tetra/hexahedron/voxel, hybrid, orphan points, coincident duplicate points), "
                 "optionally relabeled, with ONE single-site modification (site classes: coordinate beyond / below tolerance, "
                 "rewired corner, permuted corners, added / removed cell, dropped / added type block, point / cell field entry, "
-                "orphan coordinate, extra zero column), in both roles; non-trivial = a modification was applied; distinct = "
-                "distinct (source, reference, flags)")
+                "orphan coordinate, extra zero column), in both roles; plus file-level cases: a pair of ascii .vtu files with "
+                "interleaved cell types differing in ONE entry (cell / point field row, coordinate, corner, type entry), "
+                "with / without renumbered points / cells, compared by the CLI and by the API on the read data; "
+                "non-trivial = a modification was applied; distinct = distinct (source, reference, flags)")
     ctx.assumptions += [
         "the transformations applied by the retry ladder are content-preserving relabelings (C08) / zero padding (C17): "
         "named hypotheses of C03_ladder_sound; their outputs enter the model ladder as data produced by the implementation",
@@ -396,6 +565,7 @@ def run(ctx):
             flush(ctx, rows)
             rows = []
     flush(ctx, rows)
+    file_batch(ctx)
     ctx.spec_viol = sorted(ctx.spec_viol, key=lambda v: len(str(v["case"])))[:100]
 
 
@@ -409,8 +579,34 @@ def replay_witness(ctx, entry):
     return impl[-1] == "1", f"comparator={impl}"
 
 
+def replay_files(ctx, payload):
+    import tempfile
+    case = payload["case"]
+    st, rt = vf.vtu_text(case["fm_src"]), vf.vtu_text(case["fm_ref"])
+    with tempfile.TemporaryDirectory(prefix="fcv_c03_replay_") as tmp:
+        api, code = run_files(st, rt, tmp)
+    lm_s, lm_r = vf.group_py(vf.parse_vtu(st)), vf.group_py(vf.parse_vtu(rt))
+    changed = geom_key(lm_s) != geom_key(lm_r)
+    print(f"replay: .vtu files, file order of the cell types {[t for t, _ in case['fm_src']['cells']]} (source), "
+          f"modification={case.get('tag')} numbering={case.get('variant')} role={case.get('role')}")
+    print(f"replay: data stated by the two files differ: {changed}; MeshFieldsComparator(read, read) (domain,suite)={api} "
+          f"CLI exit code={code}")
+    passed = (not api.startswith("X:") and api[-1] == "1") or code == 0
+    bad = (payload.get("spec") == "FAIL" and changed and passed) or api.startswith("X:") or not isinstance(code, int)
+    if payload.get("model") is not None and isinstance(payload.get("model"), str) and not bad:
+        # replay of a correspondence mismatch: unchanged copies must pass, changed ones must fail
+        bad = (not changed and not passed) or (changed and passed)
+    if bad:
+        print(f"VIOLATION property=C03 replay={payload.get('_path', '<replay>')}")
+        return 1
+    print("replay: no violation")
+    return 0
+
+
 def replay(ctx, payload):
     case = payload["case"]
+    if case.get("kind") == "vtu-files":
+        return replay_files(ctx, payload)
     src, ref = meshgen.to_fc(case["src"]), meshgen.to_fc(case["ref"])
     flags = case.get("flags", [False, False, False])
     impl = run_comparator(src, ref, flags)
